@@ -154,7 +154,7 @@ def unlit_rule(lr):
         return x
 
     def _fix_part(p):
-        return {k: (_fix_arg(v) if k in ("key", "index", "value", "cond") else v) for k, v in p.items()}
+        return {k: (_fix_arg(v) if k in ("key", "index", "value", "cond", "lcond", "mcond") else v) for k, v in p.items()}
 
     def _fix_tree(t):
         t = tuple(t)
